@@ -5,7 +5,7 @@
    Debug-assertion and ASan/UBSan/LeakSanitizer runs of tools/checks/c18.py -- hence *_partial for the property as a whole. *)
 From Coq Require Import List Ascii String NArith Bool Arith.
 From ORatio Require Import lang.Token lang.Lexer lang.Ast lang.Parser lang.Printer.
-From ORatio Require Import proofs.Lexer_Proofs proofs.Parser_Len_Proofs proofs.Parser_Total_Proofs.
+From ORatio Require Import lang.Refcnt proofs.Lexer_Proofs proofs.Parser_Len_Proofs proofs.Parser_Total_Proofs proofs.Refcnt_Proofs.
 Import ListNotations.
 
 (* Reading any byte string ends, within a number of steps linear in its length, with the tokens or a reported lexical
@@ -32,3 +32,16 @@ Theorem front_end_outcome_partial : forall bytes,
   (exists ts, lex bytes = LOk ts /\ ((exists u r, parse ts = Ok u r) \/ parse ts = Err ESyntax \/ parse ts = Err ETooDeep)).
 Proof. exact front_end_outcome. Qed.
 Print Assumptions front_end_outcome_partial.
+
+(* The intrusive reference counting of json handles and of context / env (model: lang/Refcnt.v): along EVERY sequence of
+   handle constructions, copies, assignments and destructions a client can perform, the counter of a node is the number
+   of live handles, no node is deleted twice, no live handle points to a deleted node, and a node whose last handle is
+   gone has been deleted. (The allocator itself and the C++ object lifetimes are outside the model: LeakSanitizer /
+   AddressSanitizer runs support, not prove, the same for the real code.) *)
+Theorem handle_refcount_protocol_partial : forall os, ops_ok init os ->
+  let s := fold_left step os init in
+  (forall n, cnt s n = refs s n) /\ (forall n, freed s n <= 1) /\
+  (forall h n, In (h, n) (own s) -> freed s n = 0) /\
+  (forall n, In n (new_nodes os) -> refs s n = 0 -> freed s n = 1).
+Proof. exact refcount_protocol. Qed.
+Print Assumptions handle_refcount_protocol_partial.
